@@ -25,6 +25,7 @@ import (
 const (
 	c25Target = uint64(102)
 	c25MaxK   = 3
+	c25Cand   = 70 // pool index of the first candidate peer (validators may occupy 0..39)
 )
 
 type c25Op struct {
@@ -53,7 +54,7 @@ func buildC25(n, k int, net uint32) (*world.World, interface{}) {
 	mustOK(f.invoke(scmAddr, "registerAsset", encRegisterAsset(acctAddr(aRippleOp), chainRipple, c25Target, make([]byte, 20), make([]byte, 20)), one(acctAddr(aRippleOp))), "registerAsset")
 	for j := 0; j < k; j++ {
 		oc := acctAddr(aOwnCandAppr)
-		pub := world.PubHex(world.Acct(aCandApproved + j))
+		pub := world.PubHex(world.Acct(c25Cand + j))
 		mustOK(f.invoke(nmAddr, "registerCandidate", encPeer(pub, oc), one(oc)), "registerCandidate")
 		for i := 0; i < n; i++ {
 			f.invoke(nmAddr, "approveCandidate", encPeer(pub, acctAddr(i)), one(acctAddr(i)))
@@ -134,7 +135,7 @@ func runC25(ctx *ev.Ctx, c c25Case) {
 		case v < c.N:
 			return acctAddr(v), "validator"
 		case v < c.N+c.K:
-			return acctAddr(aCandApproved + v - c.N), "candidate"
+			return acctAddr(c25Cand + v - c.N), "candidate"
 		}
 		return acctAddr(aOutsider + v - c.N - c.K), "outsider"
 	}
